@@ -84,6 +84,10 @@ type lox struct {
 
 	_qla    int
 	_qlasym any
+
+	// _stalled is true from a successful error recovery until the next input
+	// token is shifted.
+	_stalled bool
 }
 
 func (p *jsoncParser) parse(lex _Lexer) bool {
@@ -107,6 +111,9 @@ func (p *jsoncParser) parse(lex _Lexer) bool {
 		if action == accept {
 			break
 		} else if action >= 0 { // shift
+			if p._qla == -1 {
+				p._stalled = false
+			}
 			p._stack.Push(_item{
 				State: action,
 				Sym:   p._lasym,
@@ -169,6 +176,18 @@ func (p *jsoncParser) _recover() bool {
 		p._readToken()
 	}
 
+	if p._stalled {
+		// No input was consumed since the last recovery, so resuming at this
+		// token did not help. Drop it to guarantee progress.
+		if p._la == EOF {
+			return false
+		}
+		p._readToken()
+		for p._la == ERROR {
+			p._readToken()
+		}
+	}
+
 	for {
 		save := p._stack
 		found := errSym
@@ -200,6 +219,7 @@ func (p *jsoncParser) _recover() bool {
 				p._qlasym = p._lasym
 				p._la = ERROR
 				p._lasym = found
+				p._stalled = true
 				return true
 			}
 
